@@ -24,6 +24,8 @@
                     requires iter.wf(), iter.pos == 0,
                     ensures final(self).outcome() == (if old(self).outcome() is None { Some(Ok::<BitsValue, RequestError>(BitsValue { range: iter.range, values: iter.spec_values() })) } else { old(self).outcome() }),
                 { unimplemented!() }
+                #[verifier::external_body]
+                pub fn new<T>(callback: T) -> (r: Self) ensures r.outcome() is None { unimplemented!() }
                 // a fresh promise is pending
                 #[verifier::external_body]
                 pub fn oneshot(tx: crate::shims::tokio::sync::oneshot::Sender<Result<Vec<crate::types::Indexed<bool>>, RequestError>>) -> (r: Self) ensures r.outcome() is None { unimplemented!() }
@@ -90,6 +92,8 @@
                     requires iter.wf(), iter.pos == 0,
                     ensures final(self).outcome() == (if old(self).outcome() is None { Some(Ok::<RegsValue, RequestError>(RegsValue { range: iter.range, values: iter.spec_values() })) } else { old(self).outcome() }),
                 { unimplemented!() }
+                #[verifier::external_body]
+                pub fn new<T>(callback: T) -> (r: Self) ensures r.outcome() is None { unimplemented!() }
                 // a fresh promise is pending
                 #[verifier::external_body]
                 pub fn oneshot(tx: crate::shims::tokio::sync::oneshot::Sender<Result<Vec<crate::types::Indexed<u16>>, RequestError>>) -> (r: Self) ensures r.outcome() is None { unimplemented!() }
